@@ -69,9 +69,9 @@ type FuncV struct {
 }
 
 func bv(t string, w int, signed bool) *Sc { return &Sc{T: t, K: kBV, W: w, Signed: signed} }
-func boolV(t string) *Sc                   { return &Sc{T: t, K: kBool} }
-func refV(t string) *Sc                    { return &Sc{T: t, K: kRef, W: 32} }
-func intV(t string) *Sc                    { return bv(t, 64, true) }
+func boolV(t string) *Sc                  { return &Sc{T: t, K: kBool} }
+func refV(t string) *Sc                   { return &Sc{T: t, K: kRef, W: 32} }
+func intV(t string) *Sc                   { return bv(t, 64, true) }
 
 func (s *Sc) sort() string {
 	switch s.K {
